@@ -26,7 +26,7 @@ def run(ctx):
     ctx.rule = ("vacancy worlds (Bravais, multi-site, multi-Wyckoff with non-zero bias correction) x Nthermo x random "
                 "dyadic vacancy/solute/interaction data; exact lone-vacancy chain verified by TLC vs L0vv; non-trivial = "
                 "distinct (world, data) with non-uniform vacancy data")
-    vw = calc.VACANCY_WORLDS[:8] if quick else calc.VACANCY_WORLDS
+    vw = calc.VACANCY_WORLDS[:8] + [("sqpolar", 1, 1)] if quick else calc.VACANCY_WORLDS
     cases, metas = [], []
     rcases, rmetas = [], []
     for name, chem, shell in vw:
@@ -63,7 +63,7 @@ def run(ctx):
                               {"world": name, "Nthermo": nth, "data": dV}))
                 if rep == 1:
                     tens = {n: rel.to_latt(s.crys, T) for n, T in zip(calc.NAMES4, L)}
-                    tol = {"polarrect": 1e-4, "rect2site": 2e-5, "tet2": 2e-5}.get(name, 1e-7)
+                    tol = {"polarrect": 1e-4, "rect2site": 2e-5, "tet2": 2e-5, "sqpolar": 2e-5}.get(name, 1e-7)
                     rcases.append(rel.make_case(s.w, tens, [rel.a_zero("tracer_Lsv_equals_minus_exact_L0vv", [(1, "Lsv"), (1, "L0vv")], tol),
                                                             rel.a_zero("tracer_L1vv_vanishes", [(1, "L1vv")], tol)],
                                                 usegroup=False, scale=float(np.max(np.abs(tens["L0vv"])))))
@@ -118,7 +118,7 @@ CHAIN_WORLDS_QUICK = [("fcc", 0, 1, 1), ("square", 0, 1, 1), ("honeycomb", 0, 1,
                       ("polarrect", 1, 2, 1), ("bcc", 0, 1, 1)]
 CHAIN_WORLDS_MORE = [("hcp", 0, 2, 1), ("hex2d", 0, 1, 1), ("b2", 0, 1, 1), ("sc", 0, 1, 1), ("diamond", 0, 1, 1),
                      ("rect2site", 0, 2, 1), ("tet2", 0, 2, 1), ("square", 0, 1, 2), ("hex2d", 0, 1, 2),
-                     ("fcc", 0, 1, 2), ("wurtzite", 0, 1, 1), ("polarrect", 1, 2, 2)]
+                     ("fcc", 0, 1, 2), ("wurtzite", 0, 1, 1), ("polarrect", 1, 2, 2), ("sqpolar", 1, 1, 1)]
 
 
 def chain_sizes(v):
